@@ -598,6 +598,13 @@ func initCodecs() {
 		if err != nil {
 			return "marshal error: " + err.Error()
 		}
+		// compare the JSON values, not the text (escapes like \u0060 vs ` differ between the two encoders in use)
+		var generic any
+		if err := json.Unmarshal(j, &generic); err == nil {
+			if j2, err := json.Marshal(generic); err == nil {
+				j = j2
+			}
+		}
 		return strings.ReplaceAll(string(j), "null", "[]")
 	}
 	c.jsonRT = func(v any) (any, error) { // the stack item form is the second encoding of a manifest
